@@ -89,6 +89,7 @@ type Path struct {
 	syncMaps  map[*value]*hashmap
 	builders  map[*value]*strings.Builder
 	fs        map[string]*memFile
+	markers   map[int]*Term
 	handles   map[*value]*fileHandle
 }
 
@@ -674,6 +675,8 @@ func rebuild(st *Store, t *Term, a []*Term) *Term {
 		return st.FIsNaN(a[0])
 	case OUF:
 		return st.UF(t.name, t.kind, t.bits, t.signed, a...)
+	case OByte:
+		return st.Byte(a[0], int(t.c))
 	}
 	panic("rebuild: op")
 }
